@@ -28,7 +28,9 @@ Managed(obs) == obs.proxy \/ obs.manageAll
 
 NoBypass(obs) == obs.engine # {} => Managed(obs)
 
-Spells(it, rq) == rq.var = "" /\ MethodOK(it, rq.m) /\ MatchesStrictX(it.p, rq.u)
+\* (a parameter spelled with an EMPTY segment - "a.com//x" for "a.com/{id}/x" - is no literal spelling of the URL)
+Spells(it, rq) == /\ rq.var = "" /\ MethodOK(it, rq.m) /\ MatchesStrictX(it.p, rq.u)
+                  /\ \A i \in ParamPositions(it.p) : Parts(rq.u)[i].v # ""
 Literal(items, rq, obs) == (\E it \in items : Spells(it, rq)) => Managed(obs)
 
 Accept(items, rq, obs) == NoBypass(obs) /\ Literal(items, rq, obs)
